@@ -19,6 +19,7 @@ import ButlerModel.Driver.C20
 import ButlerModel.Driver.C05
 import ButlerModel.Driver.C06
 import ButlerModel.Driver.C17r
+import ButlerModel.Driver.C06s
 /-! Line-protocol driver: one request per line on stdin, one reply per line on stdout.
 The first token selects the model; stateful models keep their state in `DState`. -/
 
@@ -35,6 +36,7 @@ structure DState where
   crash : Driver.C08.St := {}
   xfer : Transfer.Repo := {}
   rc : RegCache.S := {}
+  sp : Driver.C06s.St := {}
 
 def step (st : DState) (line : String) : DState × String :=
   let toks := (line.splitOn " ").filter (· ≠ "")
@@ -57,6 +59,7 @@ def step (st : DState) (line : String) : DState × String :=
   | "reg" :: rest => let (c, out) := Driver.C02.handle st.reg rest; ({ st with reg := c }, out)
   | "path" :: rest => (st, Driver.C09.handlePath rest)
   | "rc" :: rest => let (c, out) := Driver.C17r.handle st.rc rest; ({ st with rc := c }, out)
+  | "sp" :: rest => let (c, out) := Driver.C06s.handle st.sp rest; ({ st with sp := c }, out)
   | "xfer" :: rest => let (c, out) := Driver.C19.handle st.xfer rest; ({ st with xfer := c }, out)
   | "crash" :: rest => let (c, out) := Driver.C08.handle st.crash rest; ({ st with crash := c }, out)
   | "st" :: rest => let (c, out) := Driver.C01.handle st.store rest; ({ st with store := c }, out)
